@@ -107,7 +107,7 @@ def run(tier):
     if not iexe:
         ck.violation('no-failing-input-found', 'harness rot.cpp does not compile against the repo: ' + err[-600:])
         return ck.finish(trusted=TRUSTED)
-    n = 420 if tier == 'quick' else 12000
+    n = 3000 if tier == "quick" else 40000
     cor = corpus(PID)
     cases = cor + gen(ck.rng, n)
     ml, il, tabs = run_both(ck, mexe, iexe, cases)
@@ -121,7 +121,7 @@ def run(tier):
     def known_match(case, impl_line, msg):
         c = parse(case)
         f = findings.get('C15-daily-dst')
-        if f and c['freq'] == 1 and not c['gmt'] and ('rotation point' in msg) and dst_plus24_applies(c):
+        if f and c['freq'] == 1 and not c['gmt'] and ('rotation point' in msg) and (dst_plus24_applies(c) or isdst_carry_applies(c)):
             return '%s open: %s' % (f['id'], f['what'])
         return None
 
@@ -165,6 +165,20 @@ def dst_plus24_applies(c):
             loc = datetime.datetime(d.year, d.month, d.day, c['hh'], c['mm'], 0, tzinfo=tz, fold=fold)
             rt = int(loc.timestamp())
             if rt <= t and datetime.datetime.fromtimestamp(rt, tz).utcoffset() != datetime.datetime.fromtimestamp(rt + 86400, tz).utcoffset():
+                return True
+    return False
+
+
+def isdst_carry_applies(c):
+    """some start / record instant t has today's HH:MM (local) still ahead, across a change of the zone offset"""
+    tz = zone_of(c)
+    for o in c['ops']:
+        t = (o[3] if o[0] == 'R' else o[2]) // NS
+        d = datetime.datetime.fromtimestamp(t, tz)
+        for fold in (0, 1):
+            loc = datetime.datetime(d.year, d.month, d.day, c['hh'], c['mm'], 0, tzinfo=tz, fold=fold)
+            rt = int(loc.timestamp())
+            if rt > t - 7200 and datetime.datetime.fromtimestamp(rt, tz).utcoffset() != d.utcoffset():
                 return True
     return False
 
